@@ -13,6 +13,7 @@ import (
 
 	sentinel "github.com/alibaba/sentinel-golang/api"
 	"github.com/alibaba/sentinel-golang/core/base"
+	cb "github.com/alibaba/sentinel-golang/core/circuitbreaker"
 	"github.com/alibaba/sentinel-golang/core/hotspot"
 	"pgregory.net/rapid"
 
@@ -484,5 +485,63 @@ func TestP_RegressP3(t *testing.T) {
 			t.Fatalf("value A admits %d entries after everything exited, threshold 2", n)
 		}
 		c.NonTrivial()
+	})
+}
+
+// TestBlockedByAnotherModule: the resource also carries a circuit-breaking rule. While the breaker is open, requests for a
+// value pass the hotspot concurrency check and are then rejected by the breaker: they never took a unit, so they give none
+// back. Whatever the breaker does, the entries in flight for a value never exceed its threshold, and after everything has
+// exited the value can again hold exactly its threshold.
+func TestBlockedByAnotherModule(t *testing.T) {
+	hx.Check(t, hx.N{Quick: 2000, Thorough: 20000}, func(t *rapid.T, c *hx.Case) {
+		hx.Reset(hx.Epoch + uint64(rapid.IntRange(0, 999).Draw(t, "t0")))
+		K := int64(rapid.IntRange(1, 3).Draw(t, "K"))
+		if _, err := hotspot.LoadRules([]*hotspot.Rule{{ID: "h", Resource: "h", MetricType: hotspot.Concurrency, ParamIndex: 0, Threshold: K, SpecificItems: map[interface{}]int64{}}}); err != nil {
+			t.Fatalf("hotspot rule: %v", err)
+		}
+		if _, err := cb.LoadRules([]*cb.Rule{{Id: "cb", Resource: "h", Strategy: cb.ErrorCount, RetryTimeoutMs: 1000, MinRequestAmount: 1, StatIntervalMs: 10000, Threshold: 1}}); err != nil {
+			t.Fatalf("breaker rule: %v", err)
+		}
+		live := map[string][]*base.SentinelEntry{}
+		cbBlocks := 0
+		defer func() {
+			for _, es := range live {
+				for _, e := range es {
+					e.Exit()
+				}
+			}
+		}()
+		for i, n := 0, rapid.IntRange(3, 40).Draw(t, "n"); i < n; i++ {
+			v := rapid.SampledFrom([]string{"a", "a", "b"}).Draw(t, "v")
+			switch op := rapid.IntRange(0, 5).Draw(t, "op"); {
+			case op <= 2:
+				e, blk := sentinel.Entry("h", sentinel.WithArgs(v))
+				if e != nil {
+					live[v] = append(live[v], e)
+				} else if blk.BlockType() == base.BlockTypeCircuitBreaking {
+					cbBlocks++
+				}
+				c.Op("Entry(%s) -> %v (in flight for it: %d)", v, blk, len(live[v]))
+				if int64(len(live[v])) > K {
+					t.Fatalf("value %s holds %d entries in flight, its threshold is %d (%d request(s) were rejected by the circuit breaker before: they released units they never took)", v, len(live[v]), K, cbBlocks)
+				}
+			case op == 3 && len(live[v]) > 0:
+				e := live[v][0]
+				live[v] = live[v][1:]
+				if rapid.Bool().Draw(t, "fails") {
+					e.Exit(base.WithError(errors.New("biz"))) // trips the breaker
+				} else {
+					e.Exit()
+				}
+				c.Op("Exit(%s)", v)
+			default:
+				dt := uint64(rapid.SampledFrom([]int{1, 500, 1000, 1001}).Draw(t, "dt"))
+				hx.C.AddMs(dt)
+				c.Op("advance %d", dt)
+			}
+		}
+		if cbBlocks > 0 {
+			c.NonTrivial()
+		}
 	})
 }
